@@ -363,3 +363,27 @@ PROPS["C14"] = dict(
     min_labels=dict(quick=dict(parse=8000, serialize=6000, split_inside_number=2000, parse_verbose=1000)),
     assumptions=["glibc's uselocale/newlocale semantics (HAVE_USELOCALE configuration, the one this tree configures to here)"],
 )
+
+_TSAN_ENV = {"TSAN_OPTIONS": "halt_on_error=0:exitcode=0:suppress_equal_stacks=0:suppress_equal_addresses=0:report_signal_unsafe=0:history_size=4:second_deadlock_stack=0"}
+PROPS["C18"] = dict(
+    harness="C18_threads.cpp", level="exploration", config="plainthr", wrap_alloc=False, confirm_runs=3,
+    mode_config={"refcount": "plainthr", "refcount_tsan": "tsanthr", "seed": "plainthr"}, replay_env=_TSAN_ENV,
+    technique="generated thread programs on CPU-pinned workers with an invariant over the history (exact final reference counts, destroy-exactly-once, put()==1 exactly once per node, private-tree results) in a plain threaded build, ThreadSanitizer's happens-before race detection on the same programs in a -fsanitize=thread build, each run validated by a canary race; seed publication with a harness-owned schedule (the tree's own OVERRIDE_GET_RANDOM_SEED hook holds all threads inside the initialisation branch with different candidate seeds) in a fresh process per trial",
+    level_text="N=2..16 pinned threads start from a spin barrier and run generated get/put/read patterns on 1..4 shared nodes (each thread also owns a "
+               "pre-acquired reference it releases last; the main thread releases its reference concurrently or last), optionally interleaved with building, "
+               "serialising, re-parsing and freeing private trees: every node must be destroyed exactly once, only after the last release, 'freed' must be "
+               "reported exactly once per node, and ThreadSanitizer must not report a race during the program although it does report the canary race; "
+               "for the seed, every trial is a fresh process in which all threads race to publish different seeds and every early and late hash of a key "
+               "must equal the process's final one",
+    level_note="for the reference counts the harness does not own the scheduler: interleavings are sampled by contention and repetition, with TSan as a schedule-insensitive race oracle; a case whose canary shows no lost update / no TSan report is not counted (label not_explored_*)",
+    rule="one generated thread program (or one seed trial); counted only when its canary proved real concurrency (refcount) or at least two threads were inside the seed initialisation together (seed); distinct by hash of the program / trial parameters",
+    quick=[dict(mode="refcount", cases=24, workers=1, config="plainthr"),
+           dict(mode="refcount_tsan", cases=24, workers=1, config="tsanthr", env=_TSAN_ENV),
+           dict(mode="seed", cases=200, workers=1, config="plainthr")],
+    thorough=[dict(mode="refcount", cases=400, workers=1, config="plainthr"),
+              dict(mode="refcount_tsan", cases=500, workers=1, config="tsanthr", env=_TSAN_ENV),
+              dict(mode="seed", cases=2000, workers=1, config="plainthr")],
+    min_labels=dict(quick=dict(canary_ok=30, seed_race_all_threads=100)),
+    assumptions=["HAVE_ATOMIC_BUILTINS as configured by cmake for this tree; -DENABLE_THREADING=1 selects the __sync paths",
+                 "a fault that needs one specific interleaving that is neither a data race nor likely under contention can be missed"],
+)
